@@ -462,6 +462,9 @@ where
 
         let idoms = self.compute_immediate_dominators(start_index)?;
 
+        // Vertices unreachable from the start node dominate nothing and keep an empty frontier.
+        let is_reachable = |index: &usize| *index == start_index || idoms.contains_key(index);
+
         for vertex in &self.vertices {
             let vertex_index: usize = *vertex.0;
 
@@ -471,7 +474,10 @@ where
                 }
                 let idom = idoms[&vertex_index];
 
-                for predecessor in &self.predecessors[&vertex_index] {
+                for predecessor in self.predecessors[&vertex_index]
+                    .iter()
+                    .filter(|p| is_reachable(p))
+                {
                     let mut runner = *predecessor;
                     while runner != idom {
                         df.get_mut(&runner).unwrap().insert(vertex_index);
@@ -486,7 +492,10 @@ where
 
         // Special handling for the start node as it can be part of a loop.
         // This is necessary because we don't have a dedicated entry node.
-        for predecessor in &self.predecessors[&start_index] {
+        for predecessor in self.predecessors[&start_index]
+            .iter()
+            .filter(|p| is_reachable(p))
+        {
             let mut runner = *predecessor;
             loop {
                 df.get_mut(&runner).unwrap().insert(start_index);
@@ -528,7 +537,8 @@ where
 
         let mut ancestor: FxHashMap<usize, Option<usize>> = FxHashMap::default();
         let mut label: FxHashMap<usize, usize> = FxHashMap::default();
-        for &vertex in self.vertices.keys() {
+        // Only vertices reachable from the root take part (they are the ones with a DFS number).
+        for &vertex in &dfs_pre_order {
             ancestor.insert(vertex, None);
             label.insert(vertex, dfs_number[&vertex]);
         }
@@ -539,6 +549,10 @@ where
             let mut min_semi = usize::MAX;
 
             for &pred in &self.predecessors[&vertex] {
+                // A predecessor that is unreachable from the root lies on no path from the root.
+                if !dfs_number.contains_key(&pred) {
+                    continue;
+                }
                 if ancestor[&pred].is_some() {
                     compress(&mut ancestor, &mut label, pred);
                 }
@@ -810,14 +824,19 @@ where
             }
         }
 
-        // Graph is reducible iff the FE graph is acyclic and every node is reachable from head.
-        let every_node_is_reachable = fe_graph.unreachable_vertices(head)?.is_empty();
+        // Graph is reducible iff the FE graph is acyclic and every node reachable from head is
+        // still reachable from head in the FE graph.
+        let every_node_is_reachable =
+            fe_graph.unreachable_vertices(head)? == self.unreachable_vertices(head)?;
         Ok(every_node_is_reachable && fe_graph.is_acyclic(head))
     }
 
     /// Computes the set of natural loops in the graph
     pub fn compute_loops(&self, head: usize) -> Result<Vec<Loop>, Error> {
         let mut loops: BTreeMap<usize, BTreeSet<usize>> = BTreeMap::new();
+
+        // Vertices unreachable from head are not part of any loop.
+        let reachable = self.reachable_vertices(head)?;
 
         // For each back edge compute the set of nodes part of the loop
         for (tail, header) in self.compute_back_edges(head)? {
@@ -832,7 +851,7 @@ where
 
             while let Some(node) = queue.pop() {
                 for &predecessor in &self.predecessors[&node] {
-                    if nodes.insert(predecessor) {
+                    if reachable.contains(&predecessor) && nodes.insert(predecessor) {
                         queue.push(predecessor);
                     }
                 }
